@@ -50,16 +50,24 @@ __all__ = ("TrioEventLoop",)
 class _TrioIdleCallbackInstrument(trio.abc.Instrument):
     """IDLE callbacks emulation helper."""
 
-    __slots__ = ("idle_callbacks",)
+    __slots__ = ("idle_callbacks", "on_error")
 
-    def __init__(self, idle_callbacks: Mapping[Hashable, Callable[[], typing.Any]]):
+    def __init__(
+        self,
+        idle_callbacks: Mapping[Hashable, Callable[[], typing.Any]],
+        on_error: Callable[[BaseException], typing.Any],
+    ):
         self.idle_callbacks = idle_callbacks
+        self.on_error = on_error
 
     def before_io_wait(self, timeout: float) -> None:
         if timeout > 0:
-            for handle, idle_callback in list(self.idle_callbacks.items()):
-                if handle in self.idle_callbacks:  # not removed by an earlier idle callback
-                    idle_callback()
+            try:
+                for handle, idle_callback in list(self.idle_callbacks.items()):
+                    if handle in self.idle_callbacks:  # not removed by an earlier idle callback
+                        idle_callback()
+            except BaseException as exc:  # trio would log it and switch the instrument off
+                self.on_error(exc)
 
 
 class TrioEventLoop(EventLoop):
@@ -79,6 +87,7 @@ class TrioEventLoop(EventLoop):
         self._pending_tasks: list[tuple[Callable[_Spec, Awaitable], trio.CancelScope, _Spec.args]] = []
 
         self._nursery: trio.Nursery | None = None
+        self._idle_exception: BaseException | None = None
 
         self._sleep = trio.sleep
         self._wait_readable = trio.lowlevel.wait_readable
@@ -170,7 +179,7 @@ class TrioEventLoop(EventLoop):
         exception. If ExitMainLoop is raised, exits cleanly.
         """
 
-        emulate_idle_callbacks = _TrioIdleCallbackInstrument(self._idle_callbacks)
+        emulate_idle_callbacks = _TrioIdleCallbackInstrument(self._idle_callbacks, self._idle_callback_failed)
 
         try:
             trio.run(self._main_task, instruments=[emulate_idle_callbacks])
@@ -195,7 +204,7 @@ class TrioEventLoop(EventLoop):
                 nursery.cancel_scope.cancel()
         """
 
-        emulate_idle_callbacks = _TrioIdleCallbackInstrument(self._idle_callbacks)
+        emulate_idle_callbacks = _TrioIdleCallbackInstrument(self._idle_callbacks, self._idle_callback_failed)
 
         try:
             trio.lowlevel.add_instrument(emulate_idle_callbacks)
@@ -241,6 +250,19 @@ class TrioEventLoop(EventLoop):
             await self._sleep(seconds)
             callback()
 
+    def _idle_callback_failed(self, exc: BaseException) -> None:
+        """Ends the main loop with the exception an idle callback raised, like for any other callback.
+
+        Idle callbacks run from a Trio instrument, where an exception cannot propagate: the main task raises it.
+        """
+        if self._nursery is None:
+            raise exc
+
+        self._idle_exception = exc
+        self._nursery.cancel_scope.cancel()
+        # the scheduler is about to wait for I/O with a timeout computed before the cancellation
+        trio.lowlevel.current_trio_token().run_sync_soon(lambda: None)
+
     def _handle_main_loop_exception(self, exc: BaseException) -> None:
         """Handles exceptions raised from the main loop, catching ExitMainLoop
         instead of letting it propagate through.
@@ -267,6 +289,9 @@ class TrioEventLoop(EventLoop):
                 await trio.sleep_forever()
         finally:
             self._nursery = None
+            if self._idle_exception is not None:
+                exc, self._idle_exception = self._idle_exception, None
+                raise exc
 
     def _schedule_pending_tasks(self) -> None:
         """Schedules all pending asynchronous tasks that were created before
